@@ -29,41 +29,68 @@
    Defects # {} and reports only entries of Defects. *)
 EXTENDS PipelineGraphMC
 
-CONSTANTS ExtIds, MaxDefects
+CONSTANTS ExtIds, MaxDefects,
+          MaxKeys     \* bound on the number of written keys (0: the reference/shape clauses only)
 
 VARIABLES undef,    \* ids without top-level definition
           ambig,    \* set of <<connector id, "receiver" | "exporter">>
           sexts,    \* service::extensions
           blank,    \* empty document
-          nd        \* number of injected defects
+          nd,       \* number of injected defects
+          keys      \* written keys: set of <<place kind, a, b, key>> (see WriteKey)
 
-vvars == <<cfg, undef, ambig, sexts, blank, nd>>
+vvars == <<cfg, undef, ambig, sexts, blank, nd, keys>>
 
 AllIds == Rcvs \cup Procs \cup Exps \cup Conns \cup ExtIds
 
-VInit == GInit /\ undef = {} /\ ambig = {} /\ sexts = {} /\ blank = FALSE /\ nd = 0
+VInit == GInit /\ undef = {} /\ ambig = {} /\ sexts = {} /\ blank = FALSE /\ nd = 0 /\ keys = {}
 
 Inject == ~blank /\ nd < MaxDefects /\ nd' = nd + 1
 
-BuildCfg == /\ ~blank /\ nd = 0 /\ GNext                   \* defects are injected into a finished configuration
-            /\ UNCHANGED <<undef, ambig, sexts, blank, nd>>
-UseExt(x) == /\ ~blank /\ nd = 0 /\ x \in ExtIds \ sexts /\ sexts' = sexts \cup {x}
-             /\ UNCHANGED <<cfg, undef, ambig, blank, nd>>
+BuildCfg == /\ ~blank /\ nd = 0 /\ keys = {} /\ GNext      \* defects are injected into a finished configuration
+            /\ UNCHANGED <<undef, ambig, sexts, blank, nd, keys>>
+UseExt(x) == /\ ~blank /\ nd = 0 /\ keys = {} /\ x \in ExtIds \ sexts /\ sexts' = sexts \cup {x}
+             /\ UNCHANGED <<cfg, undef, ambig, blank, nd, keys>>
 DanglingRef(x) == /\ Inject /\ x \in AllIds \ undef /\ undef' = undef \cup {x}
-                  /\ UNCHANGED <<cfg, ambig, sexts, blank>>
+                  /\ UNCHANGED <<cfg, ambig, sexts, blank, keys>>
 Count(s, x) == Cardinality({i \in DOMAIN s : s[i] = x})
 DupProcessor(p, x) == /\ Inject /\ p \in On /\ Count(cfg[p].p, x) = 1
                       /\ \E k \in 0..Len(cfg[p].p) :          \* anywhere in the list, not only adjacent
                             cfg' = [cfg EXCEPT ![p].p = SubSeq(@, 1, k) \o <<x>> \o SubSeq(@, k + 1, Len(@))]
-                      /\ UNCHANGED <<undef, ambig, sexts, blank>>
+                      /\ UNCHANGED <<undef, ambig, sexts, blank, keys>>
 EmptyPipeline(p, s) == /\ Inject /\ p \in On
                        /\ IF s = "r" THEN cfg[p].r # {} /\ cfg' = [cfg EXCEPT ![p].r = {}]
                                      ELSE cfg[p].e # {} /\ cfg' = [cfg EXCEPT ![p].e = {}]
                        /\ cfg'[p] # EmptyPipe                  \* the pipeline itself stays declared
-                       /\ UNCHANGED <<undef, ambig, sexts, blank>>
+                       /\ UNCHANGED <<undef, ambig, sexts, blank, keys>>
 AmbiguousID(c, k) == /\ Inject /\ c \in Conns /\ <<c, k>> \notin ambig /\ ambig' = ambig \cup {<<c, k>>}
-                     /\ UNCHANGED <<cfg, undef, sexts, blank>>
-Blank == /\ Inject /\ blank' = TRUE /\ cfg' = EmptyCfg /\ undef' = AllIds /\ ambig' = {} /\ sexts' = {}
+                     /\ UNCHANGED <<cfg, undef, sexts, blank, keys>>
+Blank == /\ Inject /\ blank' = TRUE /\ cfg' = EmptyCfg /\ undef' = AllIds /\ ambig' = {} /\ sexts' = {} /\ keys' = {}
+
+\* WriteKey: one more key is written somewhere in the document.  PLACES a document has:
+\*   <<"top">>  <<"service">>  <<"telemetry">> (service::telemetry)  <<"logs">> / <<"metrics">> (service::telemetry::logs|metrics)
+\*   <<"pipeline", signal, name>>        inside service::pipelines::<id>
+\*   <<"comp1", class, id>>              inside the body of a defined component of class receivers | processors | ...
+\*   <<"comp2", class, id>>              ... one level deeper, inside its nested struct `nested`
+\*   <<"comp3", class, id>>              ... two levels deeper, inside a row of its map of structs `table`
+\* (service::extensions is a list: no place).  KEYS: a small alphabet in which every key is accepted by a field at
+\* SOME place and by no field at the others, plus keys no field accepts anywhere (incl. wrong-case variants):
+\* so the same key is the defect at one place and its NEGATIVE TWIN (must be accepted and decoded) at another.
+KeyNames == {"level", "resource", "endpoint", "flag", "weight", "bogus", "Endpoint", "LEVEL"}
+Accepts(kind, key) == \/ kind \in {"logs", "metrics"} /\ key = "level"
+                      \/ kind = "telemetry" /\ key = "resource"
+                      \/ kind = "comp1" /\ key = "endpoint"
+                      \/ kind = "comp2" /\ key = "flag"
+                      \/ kind = "comp3" /\ key = "weight"
+Classes == {<<"receivers", Rcvs>>, <<"processors", Procs>>, <<"exporters", Exps>>, <<"connectors", Conns>>, <<"extensions", ExtIds>>}
+Places == IF blank THEN {}
+          ELSE {<<k, "", "">> : k \in {"top", "service", "telemetry", "logs", "metrics"}}
+               \cup {<<"pipeline", p[1], p[2]>> : p \in On}
+               \cup UNION {{<<d, ci[1], x>> : x \in ci[2] \ undef, d \in {"comp1", "comp2", "comp3"}} : ci \in Classes}
+WriteKey(pl, k) == /\ Cardinality(keys) < MaxKeys /\ pl \in Places
+                   /\ \A y \in keys : <<y[1], y[2], y[3]>> # pl            \* one written key per place
+                   /\ keys' = keys \cup {<<pl[1], pl[2], pl[3], k>>}
+                   /\ UNCHANGED <<cfg, undef, ambig, sexts, blank, nd>>
 
 VNext == \/ BuildCfg \/ (\E x \in ExtIds : UseExt(x))
          \/ (\E x \in AllIds : DanglingRef(x))
@@ -71,6 +98,7 @@ VNext == \/ BuildCfg \/ (\E x \in ExtIds : UseExt(x))
          \/ (\E p \in Pipes, s \in {"r", "e"} : EmptyPipeline(p, s))
          \/ (\E c \in Conns, k \in {"receiver", "exporter"} : AmbiguousID(c, k))
          \/ Blank
+         \/ (\E pl \in Places, k \in KeyNames : WriteKey(pl, k))
 VSpec == VInit /\ [][VNext]_vvars
 
 -----------------------------------------------------------------------------
@@ -98,8 +126,12 @@ Missing == (IF On = {} THEN {<<"missing", "pipelines", "", "", "">>} ELSE {})
            \cup (IF DefRcv = {} THEN {<<"missing", "receivers", "", "", "">>} ELSE {})
            \cup (IF DefExp = {} THEN {<<"missing", "exporters", "", "", "">>} ELSE {})
 
+\* "a key that no field accepts": written at a place that (still) exists, accepted by no field there
+LiveKeys    == {y \in keys : <<y[1], y[2], y[3]>> \in Places}
+UnknownKeys == {<<"unknownkey", y[1], y[2], y[3], y[4]>> : y \in {z \in LiveKeys : ~Accepts(z[1], z[4])}}
+
 Defects == (IF blank \/ NothingDefined THEN {<<"empty", "", "", "", "">>} ELSE {})
-           \cup Undefined \cup UndefinedExt \cup Duplicates \cup Shapes \cup Ambiguous \cup Missing
+           \cup UnknownKeys \cup Undefined \cup UndefinedExt \cup Duplicates \cup Shapes \cup Ambiguous \cup Missing
 Reject == Defects # {}
 
 -----------------------------------------------------------------------------
@@ -127,7 +159,11 @@ Combine(S) == IF S = {} THEN {{}}
               ELSE LET p == CHOOSE q \in S : TRUE
                    IN {a \cup b : a \in PipeChoices(p), b \in Combine(S \ {p})}
 \* xconfmap.Validate joins everything the walk finds
-Outcomes == {t \cup n \cup NoPipes : t \in TopChoices, n \in Combine(On)}
+\* The document is decoded (confmap, ErrorUnused) BEFORE anything is validated: unknown keys are reported by the
+\* decoder (one or several of them, the component sections stop at their first failing component) and then
+\* nothing else is; only a document that decodes reaches the validation walk.
+Outcomes == IF UnknownKeys # {} THEN (SUBSET UnknownKeys) \ {{}}
+            ELSE {t \cup n \cup NoPipes : t \in TopChoices, n \in Combine(On)}
 
 \* design property
 WalkSound == \A o \in Outcomes : (o # {} <=> Reject) /\ o \subseteq Defects
